@@ -179,7 +179,7 @@ type c17aWorld struct {
 	phantom net.IP
 }
 
-func c17aNewWorld(covert string, transports map[pb.TransportType]cj.Transport) *c17aWorld {
+func c17aNewWorld(covert string, transports map[pb.TransportType]cj.Transport, proxyHeader ...bool) *c17aWorld {
 	rm := cj.NewRegistrationManager(&cj.RegConfig{})
 	if rm == nil {
 		panic("no registration manager")
@@ -196,6 +196,11 @@ func c17aNewWorld(covert string, transports map[pb.TransportType]cj.Transport) *
 	c2s.Transport = &transport
 	c2s.DecoyListGeneration = &gen
 	c2s.CovertAddress = &covert
+	if len(proxyHeader) > 0 && proxyHeader[0] {
+		// the registration asks for the PROXY protocol header: Proxy writes the client's address to the covert
+		// before it relays
+		c2s.Flags.ProxyHeader = &proxyHeader[0]
+	}
 	source := pb.RegistrationSource_API
 	reg, err := rm.NewRegistration(c2s, &keys, false, &source)
 	if err != nil {
@@ -304,6 +309,10 @@ func TestVerifC17App(t *testing.T) {
 	covertAddr, stopCovert := c17aCovert()
 	defer stopCovert()
 	plain := c17aNewWorld(covertAddr, map[pb.TransportType]cj.Transport{pb.TransportType_Min: min.Transport{}})
+	withHeader := c17aNewWorld(covertAddr, map[pb.TransportType]cj.Transport{pb.TransportType_Min: min.Transport{}}, true)
+	if !withHeader.reg.Flags.GetProxyHeader() || plain.reg.Flags.GetProxyHeader() {
+		t.Fatal("harness: the PROXY header flag is not as expected")
+	}
 	cm := newConnManager(nil)
 	otherPhantom := net.ParseIP("192.122.190.77") // no registration there
 	if plain.rm.CountRegistrations(otherPhantom) != 0 || plain.rm.CountRegistrations(plain.phantom) < 1 {
@@ -328,9 +337,11 @@ func TestVerifC17App(t *testing.T) {
 		}
 	}
 
+	nFound := 0
 	exec := func(cl vc17.Client, c c17aCase) net.IP {
 		conn := newC17aConn(st.TCP, cl.Addr.TCP)
 		phantom := plain.phantom
+		world := plain
 		switch c.outcome {
 		case "none":
 			phantom = otherPhantom
@@ -338,7 +349,14 @@ func TestVerifC17App(t *testing.T) {
 		case "nomatch":
 			conn.chunks = [][]byte{junk, junk, junk}
 		case "found":
-			conn.chunks = [][]byte{plain.tag, []byte("application data after the tag")}
+			// registration flags are a dimension of the relay: every other found connection belongs to a
+			// registration that asks for the PROXY header
+			if nFound++; nFound%2 == 0 {
+				world = withHeader
+				phantom = world.phantom
+				out.Count("conn:found:proxy-header")
+			}
+			conn.chunks = [][]byte{world.tag, []byte("application data after the tag")}
 		}
 		e := c.n.Go()
 		switch c.pos {
@@ -356,7 +374,7 @@ func TestVerifC17App(t *testing.T) {
 			conn.closeErr = e
 		}
 		done := make(chan struct{})
-		go func() { defer close(done); cm.handleNewTCPConn(plain.rm, conn, phantom) }()
+		go func() { defer close(done); cm.handleNewTCPConn(world.rm, conn, phantom) }()
 		select {
 		case <-done:
 		case <-time.After(60 * time.Second):
